@@ -1,6 +1,4 @@
-//go:build verif
-
-package pe
+package pegen
 
 // C12 reference matcher. Independent of the code under test: it decodes the definition JSON into its own
 // structs, evaluates a JSONPath subset (member / index steps) on decoded JSON, applies the filter semantics of
@@ -19,66 +17,66 @@ import (
 // ---------------------------------------------------------------------------------------------------------------------
 // own model of a presentation definition (only what the supported subset needs)
 
-type c12RefFilter struct {
+type C12RefFilter struct {
 	Type    *string          `json:"type"`
 	Const   *json.RawMessage `json:"const"`
 	Enum    []any            `json:"enum"`
 	Pattern *string          `json:"pattern"`
 }
 
-type c12RefField struct {
+type C12RefField struct {
 	ID       *string          `json:"id"`
 	Optional *bool            `json:"optional"`
 	Path     []string         `json:"path"`
 	Filter   *json.RawMessage `json:"filter"`
-	filter   *c12RefFilter
+	Flt   *C12RefFilter
 }
 
-type c12RefConstraints struct {
-	Fields []c12RefField `json:"fields"`
+type C12RefConstraints struct {
+	Fields []C12RefField `json:"fields"`
 }
 
-type c12RefFormat map[string]map[string][]string
+type C12RefFormat map[string]map[string][]string
 
-type c12RefDescriptor struct {
+type C12RefDescriptor struct {
 	ID          string             `json:"id"`
 	Group       []string           `json:"group"`
-	Format      *c12RefFormat      `json:"format"`
-	Constraints *c12RefConstraints `json:"constraints"`
+	Format      *C12RefFormat      `json:"format"`
+	Constraints *C12RefConstraints `json:"constraints"`
 }
 
-type c12RefReq struct {
+type C12RefReq struct {
 	Rule       string       `json:"rule"`
 	Count      *int         `json:"count"`
 	Min        *int         `json:"min"`
 	Max        *int         `json:"max"`
 	From       string       `json:"from"`
-	FromNested []*c12RefReq `json:"from_nested"`
+	FromNested []*C12RefReq `json:"from_nested"`
 }
 
-type c12RefDef struct {
+type C12RefDef struct {
 	ID          string              `json:"id"`
-	Format      *c12RefFormat       `json:"format"`
-	Reqs        []*c12RefReq        `json:"submission_requirements"`
-	Descriptors []*c12RefDescriptor `json:"input_descriptors"`
+	Format      *C12RefFormat       `json:"format"`
+	Reqs        []*C12RefReq        `json:"submission_requirements"`
+	Descriptors []*C12RefDescriptor `json:"input_descriptors"`
 
 	// unsupported != "" means the definition uses something outside the subset the reference decides
-	unsupported string
+	Unsupported string
 }
 
-var c12SupportedTypes = map[string]bool{"string": true, "number": true, "boolean": true, "array": true}
+var C12SupportedTypes = map[string]bool{"string": true, "number": true, "boolean": true, "array": true}
 
-// c12ParseRefDef decodes the definition for the reference. It never fails hard: anything outside the decided
+// C12ParseRefDef decodes the definition for the reference. It never fails hard: anything outside the decided
 // subset is recorded in unsupported, and the caller then applies only the oracles that do not need the reference.
-func c12ParseRefDef(raw []byte) *c12RefDef {
-	d := &c12RefDef{}
+func C12ParseRefDef(raw []byte) *C12RefDef {
+	d := &C12RefDef{}
 	if err := json.Unmarshal(raw, d); err != nil {
-		d.unsupported = "decode: " + err.Error()
+		d.Unsupported = "decode: " + err.Error()
 		return d
 	}
 	note := func(s string) {
-		if d.unsupported == "" {
-			d.unsupported = s
+		if d.Unsupported == "" {
+			d.Unsupported = s
 		}
 	}
 	ids := map[string]bool{}
@@ -114,7 +112,7 @@ func c12ParseRefDef(raw []byte) *c12RefDef {
 				note("field without path")
 			}
 			for _, p := range f.Path {
-				if _, ok := c12ParsePath(p); !ok {
+				if _, ok := C12ParsePath(p); !ok {
 					note("path outside subset: " + p)
 				}
 			}
@@ -134,12 +132,12 @@ func c12ParseRefDef(raw []byte) *c12RefDef {
 					note("filter keyword outside subset: " + k)
 				}
 			}
-			var flt c12RefFilter
+			var flt C12RefFilter
 			if err := json.Unmarshal(*f.Filter, &flt); err != nil {
 				note("filter decode: " + err.Error())
 				continue
 			}
-			if flt.Type == nil || !c12SupportedTypes[*flt.Type] {
+			if flt.Type == nil || !C12SupportedTypes[*flt.Type] {
 				note("filter type outside subset")
 			}
 			if flt.Const != nil {
@@ -158,11 +156,11 @@ func c12ParseRefDef(raw []byte) *c12RefDef {
 				// ignores the rest; JSON Schema would intersect. Not decided here.
 				note("enum combined with other keywords")
 			}
-			f.filter = &flt
+			f.Flt = &flt
 		}
 	}
-	var walk func(r *c12RefReq, depth int)
-	walk = func(r *c12RefReq, depth int) {
+	var walk func(r *C12RefReq, depth int)
+	walk = func(r *C12RefReq, depth int) {
 		if r == nil {
 			note("null requirement")
 			return
@@ -186,13 +184,13 @@ func c12ParseRefDef(raw []byte) *c12RefDef {
 // ---------------------------------------------------------------------------------------------------------------------
 // JSONPath subset: $ followed by .name | [n] | ['name'] | ["name"]
 
-type c12Step struct {
+type C12Step struct {
 	name  string
 	index int
 	isIdx bool
 }
 
-func c12IsIdent(s string) bool {
+func C12IsIdent(s string) bool {
 	if s == "" {
 		return false
 	}
@@ -207,12 +205,12 @@ func c12IsIdent(s string) bool {
 	return true
 }
 
-func c12ParsePath(p string) ([]c12Step, bool) {
+func C12ParsePath(p string) ([]C12Step, bool) {
 	if !strings.HasPrefix(p, "$") {
 		return nil, false
 	}
 	rest := p[1:]
-	var steps []c12Step
+	var steps []C12Step
 	for rest != "" {
 		switch rest[0] {
 		case '.':
@@ -222,10 +220,10 @@ func c12ParsePath(p string) ([]c12Step, bool) {
 				j++
 			}
 			name := rest[:j]
-			if !c12IsIdent(name) {
+			if !C12IsIdent(name) {
 				return nil, false
 			}
-			steps = append(steps, c12Step{name: name})
+			steps = append(steps, C12Step{name: name})
 			rest = rest[j:]
 		case '[':
 			end := strings.IndexByte(rest, ']')
@@ -239,14 +237,14 @@ func c12ParsePath(p string) ([]c12Step, bool) {
 				if strings.ContainsAny(name, `'"\[]`) || name == "" {
 					return nil, false
 				}
-				steps = append(steps, c12Step{name: name})
+				steps = append(steps, C12Step{name: name})
 				continue
 			}
 			n, err := strconv.Atoi(inner)
 			if err != nil || n < 0 || strconv.Itoa(n) != inner {
 				return nil, false
 			}
-			steps = append(steps, c12Step{index: n, isIdx: true})
+			steps = append(steps, C12Step{index: n, isIdx: true})
 		default:
 			return nil, false
 		}
@@ -254,9 +252,9 @@ func c12ParsePath(p string) ([]c12Step, bool) {
 	return steps, true
 }
 
-// c12Eval returns the value the steps select in doc. found=false when a step does not apply (missing member,
+// C12Eval returns the value the steps select in doc. found=false when a step does not apply (missing member,
 // index out of range, member step on a non-object, index step on a non-array) or the selected value is null.
-func c12Eval(steps []c12Step, doc any) (any, bool) {
+func C12Eval(steps []C12Step, doc any) (any, bool) {
 	cur := doc
 	for _, s := range steps {
 		if s.isIdx {
@@ -286,20 +284,20 @@ func c12Eval(steps []c12Step, doc any) (any, bool) {
 // ---------------------------------------------------------------------------------------------------------------------
 // filter semantics
 
-// c12FilterRes is the outcome of a reference filter evaluation.
-type c12FilterRes struct {
-	match bool
-	value any // the value a consumer should extract (whole value, or regex match / single capture)
+// C12FilterRes is the outcome of a reference filter evaluation.
+type C12FilterRes struct {
+	Matched bool
+	Value any // the value a consumer should extract (whole value, or regex match / single capture)
 	// errOK: the implementation is documented to (possibly) return an error here and the verdict is not defined:
 	// pattern with more than one capture group, pattern that does not compile. The reference then decides nothing.
-	errOK bool
+	ErrOK bool
 	// objErr: an object met the filter. The implementation documents ErrUnsupportedFilter for that, so Match may fail
 	// with that error; but the verdict is defined: an object is not a string/number/boolean/array and equals no string,
 	// so it does not satisfy the filter (a present value that violates the filter; "optional" does not excuse it).
-	objErr bool
+	ObjErr bool
 }
 
-func c12JSONType(v any) string {
+func C12JSONType(v any) string {
 	switch v.(type) {
 	case string:
 		return "string"
@@ -317,122 +315,122 @@ func c12JSONType(v any) string {
 	return "?"
 }
 
-func c12MatchFilter(f *c12RefFilter, v any) c12FilterRes {
+func C12MatchFilter(f *C12RefFilter, v any) C12FilterRes {
 	typ := ""
 	if f.Type != nil {
 		typ = *f.Type
 	}
 	switch tv := v.(type) {
 	case map[string]any:
-		return c12FilterRes{objErr: true}
+		return C12FilterRes{ObjErr: true}
 	case []any:
 		// documented behaviour: an array matches when one of its elements matches; the extracted value is the array
 		anyErr, anyObj := false, false
 		for _, e := range tv {
-			r := c12MatchFilter(f, e)
-			anyErr = anyErr || r.errOK
-			anyObj = anyObj || r.objErr
+			r := C12MatchFilter(f, e)
+			anyErr = anyErr || r.ErrOK
+			anyObj = anyObj || r.ObjErr
 		}
 		if anyErr {
-			return c12FilterRes{errOK: true, objErr: anyObj}
+			return C12FilterRes{ErrOK: true, ObjErr: anyObj}
 		}
 		for _, e := range tv {
-			if r := c12MatchFilter(f, e); r.match {
-				return c12FilterRes{match: true, value: v, objErr: anyObj}
+			if r := C12MatchFilter(f, e); r.Matched {
+				return C12FilterRes{Matched: true, Value: v, ObjErr: anyObj}
 			}
 		}
 		// the array itself as an instance of the schema: type array; const/enum are strings and can never equal an
 		// array; pattern only constrains strings
 		if typ == "array" && f.Const == nil && f.Enum == nil {
-			return c12FilterRes{match: true, value: v, objErr: anyObj}
+			return C12FilterRes{Matched: true, Value: v, ObjErr: anyObj}
 		}
-		return c12FilterRes{objErr: anyObj}
+		return C12FilterRes{ObjErr: anyObj}
 	}
 	// scalar
 	if f.Enum != nil {
-		// (enum is only decided in combination with type string, see c12ParseRefDef)
+		// (enum is only decided in combination with type string, see C12ParseRefDef)
 		s, ok := v.(string)
 		if !ok {
-			return c12FilterRes{}
+			return C12FilterRes{}
 		}
 		for _, e := range f.Enum {
 			if es, _ := e.(string); es == s {
-				return c12FilterRes{match: true, value: v}
+				return C12FilterRes{Matched: true, Value: v}
 			}
 		}
-		return c12FilterRes{}
+		return C12FilterRes{}
 	}
-	if c12JSONType(v) != typ {
-		return c12FilterRes{}
+	if C12JSONType(v) != typ {
+		return C12FilterRes{}
 	}
 	if f.Const != nil {
 		var cs string
 		_ = json.Unmarshal(*f.Const, &cs)
 		s, ok := v.(string)
 		if !ok || s != cs {
-			return c12FilterRes{}
+			return C12FilterRes{}
 		}
 	}
 	if f.Pattern != nil && typ == "string" {
 		s := v.(string)
 		re, err := regexp.Compile(*f.Pattern)
 		if err != nil {
-			return c12FilterRes{errOK: true}
+			return C12FilterRes{ErrOK: true}
 		}
 		m := re.FindStringSubmatch(s)
 		if m == nil {
-			return c12FilterRes{}
+			return C12FilterRes{}
 		}
 		switch re.NumSubexp() {
 		case 0:
-			return c12FilterRes{match: true, value: m[0]}
+			return C12FilterRes{Matched: true, Value: m[0]}
 		case 1:
-			return c12FilterRes{match: true, value: m[1]}
+			return C12FilterRes{Matched: true, Value: m[1]}
 		default:
-			return c12FilterRes{errOK: true}
+			return C12FilterRes{ErrOK: true}
 		}
 	}
-	return c12FilterRes{match: true, value: v}
+	return C12FilterRes{Matched: true, Value: v}
 }
 
-// c12FieldRes is the outcome for one field of a descriptor against one credential view.
-type c12FieldRes struct {
-	match    bool
-	value    any
-	errOK    bool
-	objErr   bool
-	resolved bool // some path selected a value (used for the near-match measure)
+// C12FieldRes is the outcome for one field of a descriptor against one credential view.
+type C12FieldRes struct {
+	Matched    bool
+	Value    any
+	ErrOK    bool
+	ObjErr   bool
+	Resolved bool // some path selected a value (used for the near-match measure)
 }
 
-func c12MatchField(f *c12RefField, view any) c12FieldRes {
+func C12MatchField(f *C12RefField, view any) C12FieldRes {
 	invalid := 0
-	res := c12FieldRes{}
+	res := C12FieldRes{}
 	for _, p := range f.Path {
-		steps, ok := c12ParsePath(p)
+		steps, ok := C12ParsePath(p)
 		if !ok {
-			return c12FieldRes{errOK: true}
+			return C12FieldRes{ErrOK: true}
 		}
-		v, found := c12Eval(steps, view)
+		v, found := C12Eval(steps, view)
 		if !found {
 			continue
 		}
-		res.resolved = true
-		if f.filter == nil {
-			return c12FieldRes{match: true, value: v, resolved: true}
+		res.Resolved = true
+		if f.Flt == nil {
+			return C12FieldRes{Matched: true, Value: v, Resolved: true}
 		}
-		r := c12MatchFilter(f.filter, v)
-		res.objErr = res.objErr || r.objErr
-		if r.errOK {
-			return c12FieldRes{errOK: true, objErr: res.objErr, resolved: true}
+		r := C12MatchFilter(f.Flt, v)
+		res.ObjErr = res.ObjErr || r.ObjErr
+		if r.ErrOK {
+			return C12FieldRes{ErrOK: true, ObjErr: res.ObjErr, Resolved: true}
 		}
-		if r.match {
-			return c12FieldRes{match: true, value: r.value, objErr: res.objErr, resolved: true}
+		if r.Matched {
+			return C12FieldRes{Matched: true, Value: r.Value, ObjErr: res.ObjErr, Resolved: true}
 		}
 		invalid++
 	}
 	// optional only helps when no path selected anything (documented in matchField and covered by its tests)
 	if f.Optional != nil && *f.Optional && invalid == 0 {
-		return c12FieldRes{match: true, value: nil}
+		return C12FieldRes{Matched: true, Value: nil}
 	}
 	return res
 }
@@ -440,39 +438,39 @@ func c12MatchField(f *c12RefField, view any) c12FieldRes {
 // ---------------------------------------------------------------------------------------------------------------------
 // format
 
-// c12CredFacts is what the format rule needs to know about a credential; filled by the fixture builder from the
+// C12CredFacts is what the format rule needs to know about a credential; filled by the fixture builder from the
 // generated credential description, not from parsed library objects.
-type c12CredFacts struct {
-	format    string // ldp_vc | jwt_vc
-	proofType string // ldp_vc: type of the proof; "" = no proof
-	alg       string // jwt_vc: alg header
-	unsigned  bool   // jwt_vc: empty signature part
+type C12CredFacts struct {
+	Format    string // ldp_vc | jwt_vc
+	ProofType string // ldp_vc: type of the proof; "" = no proof
+	Alg       string // jwt_vc: alg header
+	Unsigned  bool   // jwt_vc: empty signature part
 }
 
-func c12MatchFormat(f *c12RefFormat, c c12CredFacts) bool {
+func C12MatchFormat(f *C12RefFormat, c C12CredFacts) bool {
 	if f == nil || len(*f) == 0 {
 		return true
 	}
-	entry, ok := (*f)[c.format]
+	entry, ok := (*f)[c.Format]
 	if !ok {
 		return false
 	}
-	switch c.format {
+	switch c.Format {
 	case "ldp_vc":
-		if c.proofType == "" {
+		if c.ProofType == "" {
 			return true
 		}
 		for _, pt := range entry["proof_type"] {
-			if pt == c.proofType {
+			if pt == c.ProofType {
 				return true
 			}
 		}
 	case "jwt_vc":
-		if c.unsigned {
+		if c.Unsigned {
 			return true
 		}
 		for _, a := range entry["alg"] {
-			if a == c.alg {
+			if a == c.Alg {
 				return true
 			}
 		}
@@ -483,67 +481,67 @@ func c12MatchFormat(f *c12RefFormat, c c12CredFacts) bool {
 // ---------------------------------------------------------------------------------------------------------------------
 // descriptor vs credential
 
-type c12Sat struct {
-	ok      bool
-	errOK   bool
-	objErr  bool           // an object met a filter somewhere: Match may fail with ErrUnsupportedFilter, the verdict stands
-	fails   int            // number of failing conditions (fields + format constraints)
-	conds   int            // number of conditions
-	values  map[string]any // field id -> extracted value (only meaningful when ok)
-	lastRes bool           // the single failing field resolved to a value (filter said no)
+type C12Sat struct {
+	OK      bool
+	ErrOK   bool
+	ObjErr  bool           // an object met a filter somewhere: Match may fail with ErrUnsupportedFilter, the verdict stands
+	Fails   int            // number of failing conditions (fields + format constraints)
+	Conds   int            // number of conditions
+	Values  map[string]any // field id -> extracted value (only meaningful when ok)
+	LastRes bool           // the single failing field resolved to a value (filter said no)
 }
 
-func (d *c12RefDef) sat(desc *c12RefDescriptor, view any, facts c12CredFacts) c12Sat {
-	s := c12Sat{values: map[string]any{}}
+func (d *C12RefDef) Sat(desc *C12RefDescriptor, view any, facts C12CredFacts) C12Sat {
+	s := C12Sat{Values: map[string]any{}}
 	if desc.Constraints != nil {
 		for i := range desc.Constraints.Fields {
 			f := &desc.Constraints.Fields[i]
-			s.conds++
-			r := c12MatchField(f, view)
-			s.objErr = s.objErr || r.objErr
-			if r.errOK {
-				s.errOK = true
+			s.Conds++
+			r := C12MatchField(f, view)
+			s.ObjErr = s.ObjErr || r.ObjErr
+			if r.ErrOK {
+				s.ErrOK = true
 				continue
 			}
-			if !r.match {
-				s.fails++
-				s.lastRes = r.resolved
+			if !r.Matched {
+				s.Fails++
+				s.LastRes = r.Resolved
 				continue
 			}
 			if f.ID != nil {
-				s.values[*f.ID] = r.value
+				s.Values[*f.ID] = r.Value
 			}
 		}
 	}
-	for _, f := range []*c12RefFormat{d.Format, desc.Format} {
+	for _, f := range []*C12RefFormat{d.Format, desc.Format} {
 		if f != nil && len(*f) > 0 {
-			s.conds++
-			if !c12MatchFormat(f, facts) {
-				s.fails++
+			s.Conds++
+			if !C12MatchFormat(f, facts) {
+				s.Fails++
 			}
 		}
 	}
-	s.ok = s.fails == 0 && !s.errOK
+	s.OK = s.Fails == 0 && !s.ErrOK
 	return s
 }
 
 // ---------------------------------------------------------------------------------------------------------------------
 // submission requirements by direct recursion
 
-// c12ReqEval evaluates a requirement given which descriptors have a satisfying credential.
+// C12ReqEval evaluates a requirement given which descriptors have a satisfying credential.
 //
 // Two readings exist for a nested requirement that is satisfied by selecting nothing (pick with min 0 / max 0 /
 // no bounds over unavailable members): the PEX text counts it as satisfied, the implementation counts a member
 // only when it contributes at least one credential. strict=false uses the first reading, strict=true the second.
 // The oracle only speaks when both readings agree.
-type c12ReqOut struct {
-	sat      bool
-	nonEmpty bool // satisfied and contributes at least one credential under any maximal selection
-	contra   bool // the bounds are contradictory (count vs min/max, min > max): nothing is decided
+type C12ReqOut struct {
+	Sat      bool
+	NonEmpty bool // satisfied and contributes at least one credential under any maximal selection
+	Contra   bool // the bounds are contradictory (count vs min/max, min > max): nothing is decided
 }
 
-func (d *c12RefDef) groupMembers(g string) []*c12RefDescriptor {
-	var out []*c12RefDescriptor
+func (d *C12RefDef) GroupMembers(g string) []*C12RefDescriptor {
+	var out []*C12RefDescriptor
 	for _, desc := range d.Descriptors {
 		for _, dg := range desc.Group {
 			if dg == g {
@@ -555,7 +553,7 @@ func (d *c12RefDef) groupMembers(g string) []*c12RefDescriptor {
 	return out
 }
 
-func c12Bounds(r *c12RefReq) (lo int, hi int, contra bool) {
+func C12Bounds(r *C12RefReq) (lo int, hi int, contra bool) {
 	hi = 1 << 30
 	if r.Count != nil {
 		lo, hi = *r.Count, *r.Count
@@ -583,11 +581,11 @@ func c12Bounds(r *c12RefReq) (lo int, hi int, contra bool) {
 	return
 }
 
-func (d *c12RefDef) evalReq(r *c12RefReq, avail map[string]bool, strict bool) c12ReqOut {
+func (d *C12RefDef) EvalReq(r *C12RefReq, avail map[string]bool, strict bool) C12ReqOut {
 	var total, have int
 	contra := false
 	if r.From != "" {
-		for _, m := range d.groupMembers(r.From) {
+		for _, m := range d.GroupMembers(r.From) {
 			total++
 			if avail[m.ID] {
 				have++
@@ -595,26 +593,26 @@ func (d *c12RefDef) evalReq(r *c12RefReq, avail map[string]bool, strict bool) c1
 		}
 	} else {
 		for _, n := range r.FromNested {
-			o := d.evalReq(n, avail, strict)
-			contra = contra || o.contra
+			o := d.EvalReq(n, avail, strict)
+			contra = contra || o.Contra
 			total++
-			if o.sat && (!strict || o.nonEmpty) {
+			if o.Sat && (!strict || o.NonEmpty) {
 				have++
 			}
 		}
 	}
 	if r.Rule == "all" {
-		return c12ReqOut{sat: have == total, nonEmpty: have == total && total > 0, contra: contra}
+		return C12ReqOut{Sat: have == total, NonEmpty: have == total && total > 0, Contra: contra}
 	}
-	lo, hi, c := c12Bounds(r)
+	lo, hi, c := C12Bounds(r)
 	contra = contra || c
 	sat := have >= lo
-	return c12ReqOut{sat: sat, nonEmpty: sat && have > 0 && hi > 0, contra: contra}
+	return C12ReqOut{Sat: sat, NonEmpty: sat && have > 0 && hi > 0, Contra: contra}
 }
 
-// c12Complete says whether a complete selection exists given descriptor availability.
+// C12Complete says whether a complete selection exists given descriptor availability.
 // decided=false when the definition is inconsistent or the two readings disagree.
-func (d *c12RefDef) complete(avail map[string]bool) (exists bool, decided bool, why string) {
+func (d *C12RefDef) Complete(avail map[string]bool) (exists bool, decided bool, why string) {
 	if len(d.Reqs) == 0 {
 		for _, desc := range d.Descriptors {
 			if !avail[desc.ID] {
@@ -626,8 +624,8 @@ func (d *c12RefDef) complete(avail map[string]bool) (exists bool, decided bool, 
 	// every group used by a descriptor must be referenced by a requirement, otherwise the definition is
 	// inconsistent (the implementation reports a plain error)
 	refd := map[string]bool{}
-	var collect func(r *c12RefReq)
-	collect = func(r *c12RefReq) {
+	var collect func(r *C12RefReq)
+	collect = func(r *C12RefReq) {
 		if r.From != "" {
 			refd[r.From] = true
 		}
@@ -648,11 +646,11 @@ func (d *c12RefDef) complete(avail map[string]bool) (exists bool, decided bool, 
 	res := [2]bool{true, true}
 	for i, strict := range []bool{false, true} {
 		for _, r := range d.Reqs {
-			o := d.evalReq(r, avail, strict)
-			if o.contra {
+			o := d.EvalReq(r, avail, strict)
+			if o.Contra {
 				return false, false, "contradictory-bounds"
 			}
-			if !o.sat {
+			if !o.Sat {
 				res[i] = false
 			}
 		}
@@ -663,17 +661,17 @@ func (d *c12RefDef) complete(avail map[string]bool) (exists bool, decided bool, 
 	return res[0], true, ""
 }
 
-// c12Cap is an upper bound on the number of distinct credentials a correct selection contains:
+// C12Cap is an upper bound on the number of distinct credentials a correct selection contains:
 // all = every member, pick = count, else max, else every member.
-func (d *c12RefDef) capReq(r *c12RefReq) int {
+func (d *C12RefDef) CapReq(r *C12RefReq) int {
 	var caps []int
 	if r.From != "" {
-		for range d.groupMembers(r.From) {
+		for range d.GroupMembers(r.From) {
 			caps = append(caps, 1)
 		}
 	} else {
 		for _, n := range r.FromNested {
-			caps = append(caps, d.capReq(n))
+			caps = append(caps, d.CapReq(n))
 		}
 	}
 	take := len(caps)
@@ -702,7 +700,7 @@ func (d *c12RefDef) capReq(r *c12RefReq) int {
 	return sum
 }
 
-func (d *c12RefDef) descriptor(id string) *c12RefDescriptor {
+func (d *C12RefDef) Descriptor(id string) *C12RefDescriptor {
 	for _, desc := range d.Descriptors {
 		if desc.ID == id {
 			return desc
@@ -711,12 +709,12 @@ func (d *c12RefDef) descriptor(id string) *c12RefDescriptor {
 	return nil
 }
 
-func c12DeepEqualJSON(a, b any) bool {
-	return reflect.DeepEqual(c12Norm(a), c12Norm(b))
+func C12DeepEqualJSON(a, b any) bool {
+	return reflect.DeepEqual(C12Norm(a), C12Norm(b))
 }
 
-// c12Norm round-trips through JSON so that int/float64/json.Number and typed slices compare equal.
-func c12Norm(v any) any {
+// C12Norm round-trips through JSON so that int/float64/json.Number and typed slices compare equal.
+func C12Norm(v any) any {
 	b, err := json.Marshal(v)
 	if err != nil {
 		return v
